@@ -25,6 +25,8 @@ Fresh(run) == [
   newSet      |-> {},
   ackedDuring |-> {},
   inflight    |-> {},     \* keys of concurrent puts not (yet) acknowledged
+  cancelled   |-> FALSE,
+  resetErr    |-> "",
   viol        |-> {} ]
 
 c == s.c
@@ -83,9 +85,24 @@ Crash == Is("Crash") /\ Step([s EXCEPT !.interrupted = TRUE])
 \* meanwhile; a failed one leaves the previous contents (with the acknowledged puts)
 ResetEnd ==
   /\ Is("ResetEnd")
-  /\ IF s.interrupted THEN Step(s)     \* judged at the reopen that follows
-     ELSE Step([s EXCEPT !.inReset = FALSE,
-                         !.stored = IF Ev.err = "" THEN s.newSet \cup s.ackedDuring ELSE @])
+  /\ Step([s EXCEPT !.cancelled = Ev.cancelled, !.resetErr = Ev.err])   \* judged at the observation / reopen that follows
+
+\* right after the reset returned: the new set (with the concurrent puts) if it succeeded, the
+\* previous set (with the acknowledged puts) if it failed; when the caller cancelled, a late
+\* cancellation may or may not have let the swap happen - either complete set is fine
+Observe ==
+  /\ Is("Observe")
+  /\ LET S == Range(Ev.content)
+         A == s.stored
+         B == s.newSet \cup s.ackedDuring
+     IN Step([s EXCEPT
+          !.stored = S, !.inReset = FALSE, !.inflight = {},
+          !.viol = @
+            \cup Flag(~Ev.err, "x_keystore_unreadable_after_reset")
+            \cup Flag(Ev.ndup = Cardinality(S), "b_get_has_duplicates")
+            \cup Flag(Ev.size = Cardinality(S), "c_size_after_reset_not_number_of_keys")
+            \cup Flag(IF s.cancelled THEN S = A \/ S = B
+                      ELSE IF s.resetErr = "" THEN S = B ELSE S = A, "d_reset_result_not_a_complete_set")])
 
 \* after an interrupted reset: the complete previous set or the complete new set, each
 \* with the acknowledged concurrent puts; an unacknowledged put may or may not be there
@@ -112,7 +129,7 @@ OpenFailed == Is("OpenFailed") /\ Bad("x_reopen_failed")
 End == Is("End") /\ Step(s)
 
 Next == Put \/ PutStart \/ Get \/ Count \/ Contains \/ Delete \/ Empty \/ Size \/ ResetStart \/ Cancel
-        \/ CloseStart \/ Crash \/ ResetEnd \/ Reopen \/ Hang \/ Stuck \/ Left \/ OpenFailed \/ End
+        \/ CloseStart \/ Crash \/ ResetEnd \/ Observe \/ Reopen \/ Hang \/ Stuck \/ Left \/ OpenFailed \/ End
 TraceSpec == Init /\ [][Next]_vars
 TraceAccepted == TLCGet("distinct") = NLines
 InvC20 == s.viol = {}
